@@ -931,8 +931,11 @@ fn run_wire_case(tr: &mut Tr, rt: &tokio::runtime::Runtime, pdus: &[Pdu], segs: 
         } else {
             catch(|| read_pdu_from_wire(&mut reader, &mut rb, max, strict))
         };
-        for k in log.borrow_mut().drain(..) {
-            tr.emit(json!({"ev": "deliver", "k": k}));
+        // the pieces handed over during this receive: one event (total bytes, number of reads)
+        let pieces: Vec<usize> = log.borrow_mut().drain(..).collect();
+        if !pieces.is_empty() {
+            tr.emit(json!({"ev": "deliver", "k": pieces.iter().sum::<usize>(), "reads": pieces.len(),
+                           "first": pieces[0], "last": pieces[pieces.len() - 1]}));
             events += 1;
         }
         events += 1;
@@ -964,7 +967,10 @@ fn run_wire_case(tr: &mut Tr, rt: &tokio::runtime::Runtime, pdus: &[Pdu], segs: 
 fn random_segs(rng: &mut Rng, total: usize) -> Vec<usize> {
     let mut segs = Vec::new();
     let mut left = total;
-    let style = rng.below(6);
+    let mut style = rng.below(6);
+    if total > 4000 && style <= 1 {
+        style = 5;
+    }
     while left > 0 {
         let k = match style {
             0 => 1,
